@@ -470,6 +470,209 @@ def parse_dispatch():
                 callsite_guarded=callsite_guarded, upd=upd, ret_ok=ret_ok)
 
 
+# ------------------------------------------------------------------------------------ raw-access census
+RAW_DEREF = re.compile(r"\*\s*(?:&\s*)?([A-Za-z_][A-Za-z0-9_]*)\s*\.\s*(add|offset|sub)\s*\(")
+RAW_UNCHECKED = re.compile(r"([A-Za-z_][A-Za-z0-9_.]*)\s*\.\s*get_unchecked(?:_mut)?\s*\(")
+RAW_OTHER = re.compile(r"\b(from_raw_parts(?:_mut)?|transmute|read_unaligned|write_unaligned|copy_nonoverlapping|copy\s*\(|set_len|"
+                       r"read_volatile|write_volatile|as_int_unchecked_raw|unreachable_unchecked|assume_init|from_raw)\b")
+PTR_KIND = {"bytecode_ptr": "bc", "mut_ptr": "bc", "constants_ptr": "const", "upvalues_ptr": "upval", "regs_ptr": "reg"}
+SITE_CLASS = {"FETCH": "bc", "CACHE_RD": "bc", "PATCH_WR": "bc", "PATCH_RD": "bc", "CONST": "const", "UPVAL": "upval",
+              "CALLSITE": "callsite", "REG_RD": "reg", "REG_WR": "reg"}
+SITE_ID = {"FETCH": 1, "CACHE_RD": 2, "PATCH_WR": 3, "PATCH_RD": 4, "CONST": 5, "UPVAL": 6, "REG_RD": 7, "REG_WR": 8, "CALLSITE": 9}
+
+
+def balanced_arg(text, i):
+    """text[i] is just after '(' : returns the argument text up to the matching ')'."""
+    depth, j = 1, i
+    while j < len(text) and depth:
+        if text[j] == "(":
+            depth += 1
+        elif text[j] == ")":
+            depth -= 1
+        j += 1
+    return " ".join(text[i:j - 1].split())
+
+
+def raw_accesses(text):
+    """[(position, class, index expression)] of raw pointer dereferences / unchecked indexing in Rust text (comments stripped)."""
+    out = []
+    for m in RAW_DEREF.finditer(text):
+        out.append((m.start(), PTR_KIND.get(m.group(1), "ptr:" + m.group(1)), balanced_arg(text, m.end())))
+    for m in RAW_UNCHECKED.finditer(text):
+        out.append((m.start(), "callsite" if m.group(1).endswith("call_site_cache") else "vec:" + m.group(1), balanced_arg(text, m.end())))
+    return sorted(out)
+
+
+def hook_sites(text):
+    """[(position, site name, index expression)] of verif_site!(crate::verif_sites::KIND, IDX, LEN) hook calls."""
+    out = []
+    for m in re.finditer(r"verif_site!\(\s*crate::verif_sites::([A-Z_]+)\s*,", text):
+        rest = balanced_arg(text, text.find("(", m.start()) + 1)
+        parts = [x.strip() for x in re.split(r",(?![^()]*\))", rest)]
+        if len(parts) != 3:
+            raise ExtractError(f"hook call with {len(parts)} arguments: {rest!r}")
+        out.append((m.start(), m.group(1), " ".join(parts[1].split())))
+    return out
+
+
+def census_of(text, where, window=900):
+    """Every raw access must have a site hook of the same buffer class and index expression shortly before it."""
+    t = strip_comments(text)
+    m = RAW_OTHER.search(t)
+    if m:
+        raise ExtractError(f"{where}: raw operation `{m.group(1)}` in the dispatch loop has no footprint site")
+    hooks = hook_sites(t)
+    used = set()
+    res = []
+    for pos, cls, idx in raw_accesses(t):
+        if cls not in ("bc", "const", "upval", "callsite"):
+            raise ExtractError(f"{where}: raw access through `{cls}` (index {idx}) is outside the footprint model")
+        cand = [(hp, name) for (hp, name, hidx) in hooks
+                if hp < pos and pos - hp < window and SITE_CLASS.get(name) == cls and hidx == idx and (hp, name) not in used]
+        # a patched word is read (PATCH_RD) or written (PATCH_WR): decide by the text after the access
+        after = t[pos:pos + 200]
+        is_write = re.match(r"\*\s*[A-Za-z_]+\.add\([^;]*?\)\s*=[^=]", after) is not None
+        if cls == "bc":
+            cand = [c for c in cand if (c[1] == "PATCH_WR") == is_write]
+        if not cand:
+            raise ExtractError(f"{where}: raw access `{cls}[{idx}]` ({'write' if is_write else 'read'}) has no site hook / footprint entry")
+        used.add(cand[-1])
+        res.append((cand[-1][1], idx))
+    unused = [(name, hidx) for (hp, name, hidx) in hooks if (hp, name) not in used]
+    if unused:
+        raise ExtractError(f"{where}: site hooks without a raw access after them: {unused[:3]}")
+    return res
+
+
+def parse_census():
+    """(opcode, site id, number of distinct index expressions) for every dispatch arm; jump and skip opcodes of the loop."""
+    d = "runtime/src/vm/dispatch/"
+    opsdir = os.path.join(extract.REPO, d, "ops")
+    fixed = {"call_global.inc": 77, "call_global_mono.inc": 78, "call_cached.inc": 79, "call_upval.inc": 80, "tail_call_upval.inc": 81}
+    census, jumps, skips, redo = {}, set(), set(), set()
+    arms_seen = {}
+    for fn in sorted(os.listdir(opsdir)):
+        if not fn.endswith(".inc"):
+            continue
+        text = rd(d + "ops/" + fn)
+        if fn in fixed:
+            arms = [(fixed[fn], text)]
+        else:
+            t = text
+            arms = []
+            for m in re.finditer(r"\n    ([0-9]+) => \{", t):
+                op = int(m.group(1))
+                body = inc_arm(t, op, fn)
+                if "include!(" in body:
+                    continue        # the arm's code lives in its own file (call_global.inc, ...), handled there
+                arms.append((op, body))
+            whole = census_of(re.sub(r'include!\("[a-z_]+\.inc"\);', "", text), fn)
+            if sum(len(census_of(b, f"{fn}[{o}]")) for o, b in arms) != len(whole):
+                raise ExtractError(f"{fn}: raw accesses outside the opcode arms")
+        for op, body in arms:
+            if op in arms_seen:
+                raise ExtractError(f"dispatch: opcode {op} has arms in {arms_seen[op]} and {fn}")
+            arms_seen[op] = fn
+            for name, idx in census_of(body, f"{fn}[{op}]"):
+                census.setdefault((op, SITE_ID[name]), set()).add(idx)
+            b = " ".join(strip_comments(body).split())
+            if re.search(r"ip = \(ip as isize \+ imm as isize\) as usize;", b):
+                jumps.add(op)
+            if re.search(r"\bip = [^;]*;", re.sub(r"\bip = (\(ip as isize \+ imm as isize\) as usize|0|caller_ip);", "", re.sub(r"\.ip = [^;]*;", "", b))):
+                raise ExtractError(f"{fn}[{op}]: the loop's ip is assigned in a way the control-flow model does not know")
+            if "ip += 2;" in b:
+                skips.add(op)
+            if re.search(r"\bip -= 1; continue;", b):
+                redo.add(op)
+            if re.search(r"\bip (\+|-)= ", re.sub(r"\bip \+= 2;|\bip -= 1; continue;", "", b)):
+                raise ExtractError(f"{fn}[{op}]: ip is advanced in a way the control-flow model does not know")
+    run = strip_comments(rd(d + "run.rs"))
+    if len(raw_accesses(run)) != 4:
+        raise ExtractError(f"run.rs: expected 4 raw accesses (fetch + 3 register macros), found {len(raw_accesses(run))}")
+    m = RAW_OTHER.search(run)
+    if m:
+        raise ExtractError(f"run.rs: raw operation `{m.group(1)}` has no footprint site")
+    # unsafe census of the whole VM: anything new must be looked at
+    expected = {"native.rs": 2, "manual_heap/access.rs": 4, "core.rs": 2, "globals/layout.rs": 1}
+    vmdir = os.path.join(extract.REPO, "runtime/src/vm")
+    for root, _, files in os.walk(vmdir):
+        for f in files:
+            rel = os.path.relpath(os.path.join(root, f), vmdir)
+            if not f.endswith(".rs") or rel.startswith("dispatch"):
+                continue
+            n = len(re.findall(r"\bunsafe\b", strip_comments(rd("runtime/src/vm/" + rel))))
+            if n != expected.get(rel, 0):
+                raise ExtractError(f"runtime/src/vm/{rel}: {n} `unsafe` (expected {expected.get(rel, 0)}): unsafe code outside the dispatch loop "
+                                   "is not covered by the C04 footprint; review it and update tools/extractors/c04.py")
+    return census, sorted(jumps), sorted(skips), arms_seen, sorted(redo)
+
+
+# ------------------------------------------------------------------------------------ call-site cache protocol
+def parse_cache_protocol():
+    """Where the VM writes its global tables and the call-site cache (runtime/src/vm, outside the dispatch arms):
+    every write of a NEW value must sit in a function that clears call_site_cache; everything else only copies."""
+    vmdir = os.path.join(extract.REPO, "runtime/src/vm")
+    writes = []
+    for root, _, files in os.walk(vmdir):
+        for f in sorted(files):
+            rel = os.path.relpath(os.path.join(root, f), vmdir)
+            if not (f.endswith(".rs") or f.endswith(".inc")):
+                continue
+            t = re.sub(r"\s+\.", ".", " ".join(strip_comments(rd("runtime/src/vm/" + rel)).split()))
+            for m in re.finditer(r"self\.globals_by_index\[[^\]]+\] = ([^;]+);|self\.globals\.insert\(([^;]+)\);|"
+                                 r"self\.(call_site_cache)\.clear\(\)|self\.(globals_by_index_cache)\.(clear|insert)\(([^;]*)\);|"
+                                 r"std::ptr::copy_nonoverlapping\( (cached)\.as_ptr\(\), self\.globals_by_index\.as_mut_ptr\(\)", t):
+                writes.append((rel, m.group(0)))
+    kinds = []
+    for rel, w in writes:
+        if w.startswith("self.call_site_cache.clear"):
+            kinds.append((rel, "flush"))
+        elif re.fullmatch(r"self\.globals_by_index\[idx\] = value;", w) or re.fullmatch(r"self\.globals\.insert\(name, value\);", w):
+            kinds.append((rel, "store"))
+        elif re.fullmatch(r"self\.globals_by_index\[idx\] = self\.globals\.get\(name\)\.copied\(\)\.unwrap_or\(Value::null\(\)\);", w) \
+                or re.fullmatch(r"self\.globals_by_index\[idx\] = Value::null\(\);", w) \
+                or re.fullmatch(r"self\.globals\.insert\(name\.clone\(\), value\);", w) or w.startswith("std::ptr::copy_nonoverlapping"):
+            kinds.append((rel, "copy"))
+        elif w.startswith("self.globals_by_index_cache.insert"):
+            kinds.append((rel, "snapshot"))
+        elif w.startswith("self.globals_by_index_cache.clear"):
+            kinds.append((rel, "snapshot-clear"))
+        else:
+            raise ExtractError(f"runtime/src/vm/{rel}: unrecognised write to the global tables: {w!r}")
+    # `value` inserted by the copy sites must come from the other table
+    sync = " ".join(strip_comments(rd("runtime/src/vm/globals/sync.rs")).split())
+    if sync.count("let value = self.globals_by_index[idx]; self.globals.insert(name.clone(), value);") != sync.count("self.globals.insert("):
+        raise ExtractError("globals/sync.rs: a by-name insert no longer copies from globals_by_index")
+    acc = " ".join(strip_comments(rd("runtime/src/vm/globals/access.rs")).split())
+    m1 = re.search(r"pub fn set_global\(&mut self, name: String, value: Value\) \{(.*?)\} pub fn", acc)
+    m2 = re.search(r"pub fn set_global_by_index\(&mut self, idx: usize, value: Value\) \{(.*?)\} pub fn", acc)
+    if not m1 or not m2:
+        raise ExtractError("globals/access.rs: set_global / set_global_by_index not found")
+    stores_flush = ("self.globals.insert(name, value);" in m1.group(1) and "self.call_site_cache.clear();" in m1.group(1)
+                    and "self.globals_by_index[idx] = value;" in m2.group(1) and "self.call_site_cache.clear();" in m2.group(1))
+    stores = [k for k in kinds if k[1] == "store"]
+    stores_only_in_access = all(rel == "globals/access.rs" for rel, _ in stores) and len(stores) == 2
+    gc = " ".join(strip_comments(rd("runtime/src/vm/gc.rs")).split())
+    gc_roots = ("for value in self.globals.values() {" in gc and "for value in &self.globals_by_index {" in gc
+                and gc.find("self.heap.sweep();") < gc.find("self.globals_by_index_cache.clear();") and "self.globals_by_index_cache.clear();" in gc)
+    mono = " ".join(strip_comments(rd("runtime/src/vm/dispatch/ops/call_global_mono.inc")).split())
+    hit_guard = ("if !cached.bytecode_ptr.is_null() && cached.owner == cached_func_ptr && idx < self.globals_by_index.len() "
+                 "&& self.globals_by_index[idx].as_ptr() == Some(cached_func_ptr)") in mono
+    fills = []
+    for fn in ("call_global.inc", "call_global_mono.inc"):
+        t = " ".join(strip_comments(rd("runtime/src/vm/dispatch/ops/" + fn)).split())
+        for m in re.finditer(r"self\.call_site_cache\[slot\] = crate::vm::CallSiteCacheEntry \{(.*?)\};", t):
+            e = m.group(1)
+            own = re.search(r"owner: (current_func_ptr|new_func_ptr)", e)
+            ok = (re.search(r"bytecode_ptr: bc_ptr,", e) and re.search(r"constants_ptr: const_ptr,", e)
+                  and re.search(r"bytecode_len: bc_len as u32,", e) and re.search(r"constants_len: const_len as u16,", e) and own)
+            fills.append(bool(ok))
+        if "self.call_site_cache[" in re.sub(r"self\.call_site_cache\[slot\] = crate::vm::CallSiteCacheEntry \{", "", t):
+            raise ExtractError(f"{fn}: call_site_cache is written in an unrecognised way")
+    return dict(kinds=kinds, stores_flush=stores_flush and stores_only_in_access, gc_roots=gc_roots, hit_guard=hit_guard,
+                fills_ok=all(fills) and len(fills) == 4, nfills=len(fills))
+
+
 @extract.register("DispatchSites")
 def gen_dispatch_sites():
     p = parse_dispatch()
@@ -500,6 +703,28 @@ def gen_dispatch_sites():
            "Definition call_paths : list (N * N * bool) := [" +
            "; ".join(f"({op}, {k}, {B(u)})" for op, k, u in p['upd']) + "].\n",
            f"Definition return_restores_clen : bool := {B(p['ret_ok'])}.\n"]
+    census, jumps, skips, _arms, redo = parse_census()
+    out.append("(* raw-access census of the dispatch arms: (opcode, site id, number of distinct index expressions); every raw access in the\n"
+               "   source has a site hook of the same buffer class and index expression right before it, and nothing else is raw *)\n"
+               "Definition raw_census : list (N * N * N) := [" + "; ".join(f"({op}, {k}, {len(v)})" for (op, k), v in sorted(census.items())) + "].\n")
+    out.append("(* opcodes whose arm assigns ip := ip + imm (all other arms leave ip alone, add 2, or switch frames) *)\n"
+               "Definition dispatch_jump_ops : list N := [" + "; ".join(map(str, jumps)) + "].\n")
+    out.append("(* opcodes whose arm skips two inline cache words (ip += 2) *)\n"
+               "Definition dispatch_skip_ops : list N := [" + "; ".join(map(str, skips)) + "].\n")
+    out.append("(* opcodes whose arm may rewrite its own word and dispatch it again (ip -= 1; continue) *)\n"
+               "Definition dispatch_redo_ops : list N := [" + "; ".join(map(str, redo)) + "].\n")
+    out.append("(* opcode -> offsets (relative to the instruction index) of the words read back while patching *)\n"
+               "Definition patch_reads : list (N * list N) := [" +
+               "; ".join(f"({op}, [{'; '.join(str(off(w) + (3 if s_['writes_after_skip'] and op != 104 else 1)) for w in s_['oldrd'])}])"
+                         for op, s_ in sorted(p['sites'].items()) if s_['oldrd']) + "].\n")
+    cp = parse_cache_protocol()
+    out.append("(* call-site cache protocol (runtime/src/vm/globals, gc.rs, call_global*.inc) *)\n"
+               f"Definition stores_flush_cache : bool := {B(cp['stores_flush'])}.   (* the only writes of a new value to globals / globals_by_index are set_global and set_global_by_index, and both clear call_site_cache *)\n"
+               f"Definition gc_roots_globals : bool := {B(cp['gc_roots'])}.   (* collect marks globals and globals_by_index and drops the layout snapshots after the sweep *)\n"
+               f"Definition mono_hit_guard : bool := {B(cp['hit_guard'])}.   (* the fast path needs a non-null entry owned by the cached callee that the global still denotes *)\n"
+               f"Definition cache_fills_from_callee : bool := {B(cp['fills_ok'])}.   (* all {cp['nfills']} fills store the callee's own code pointers, lengths and owner *)\n"
+               "Definition global_table_writes : list (N * N) := [" +
+               "; ".join(f"({ {'flush': 0, 'store': 1, 'copy': 2, 'snapshot': 3, 'snapshot-clear': 4}[k] }, 1)" for _, k in cp['kinds']) + "].\n")
     for op, s in p["sites"].items():
         if op in (77, 78) and not s["writes_after_skip"]:
             raise ExtractError(f"dispatch: opcode {op}: patch no longer runs after `ip += 2`")
